@@ -281,6 +281,9 @@ func (r *Registry) structSort(t types.Type, u *types.Struct) string {
 }
 
 func (r *Registry) structOf(t types.Type) *structInfo {
+	if _, ok := t.(*mapCells); ok {
+		return nil
+	}
 	u, ok := t.Underlying().(*types.Struct)
 	if !ok {
 		return nil
